@@ -72,6 +72,7 @@ def main():
                 fired[q] = {"rc": r.returncode, "rules": rules[:8], "tail": r.stdout[-600:] if not rules else ""}
     finally:
         subprocess.check_call(["git", "-C", repo, "checkout", "--", "."])
+        subprocess.check_call(["git", "-C", repo, "clean", "-fdq"])   # files the patch added
         shutil.rmtree("/tmp/rfverify_out", ignore_errors=True)
     res["checks_fired"] = fired
     res["date"] = time.strftime("%Y-%m-%d")
